@@ -79,10 +79,12 @@ func (st *State) get(h *HeapInfo) Term {
 	switch st.kind {
 	case 0:
 		t = st.ex.vc.declare(mangle(h.Name)+"!0", h.Sort)
+		st.ex.heapTyping(h, t, st.alloc)
 	case 1:
 		old := st.par.get(h)
 		if st.ev.matches(h) {
 			t = st.ex.vc.declare(fmt.Sprintf("%s!e%d", mangle(h.Name), st.ev.id), h.Sort)
+			st.ex.heapTyping(h, t, st.alloc)
 			if st.ev.frame != nil {
 				st.ev.frame(h, old, t)
 			}
